@@ -438,7 +438,10 @@ func isRaw(sc scenario) bool {
 func runScenario(sc scenario, coq bool) *runner {
 	r := newRunner(coq, isRaw(sc))
 	for _, o := range sc.Ops {
-		r.step(o)
+		o := o
+		if p := hxlib.Catch(func() { r.step(o) }); p != "" {
+			r.fail("%s at length %d panics: %s", o.K, len(r.leaves), p)
+		}
 		if r.oracle != "" && strings.Contains(r.oracle, "panics") {
 			break // the accumulator object is in an unknown state
 		}
@@ -580,7 +583,9 @@ func genRandom(rg *rand.Rand, maxLen int, malformed bool) scenario {
 			}
 			o = opSpec{K: "verify", B: hex.EncodeToString(h), Ws: sp}
 		}
-		r.step(o)
+		if hxlib.Catch(func() { r.step(o) }) != "" {
+			r.fail("panic")
+		}
 		sc.Ops = append(sc.Ops, o)
 		if r.oracle != "" {
 			break
